@@ -10,6 +10,11 @@ DiagramsN(n, E, A, I, NL, EL) ==
   {OH(w, e, s, t) : w \in SeqsOfLen(NL, n), e \in SeqsUpTo(EdgesOver(n, A, EL), E),
                     s \in SeqsUpTo(Range0(n), I), t \in SeqsUpTo(Range0(n), I)}
 Diagrams(N, E, A, I, NL, EL) == UNION {DiagramsN(n, E, A, I, NL, EL) : n \in 0 .. N}
+\* all open hypergraphs of a given type ta -> tb (built directly, never filtered out of a big set)
+TypedSeqs(w, ty) == {s \in SeqsOfLen(Range0(Len(w)), Len(ty)) : Thru(s, w) = ty}
+TypedDiagrams(N, E, A, NL, EL, ta, tb) ==
+  UNION {UNION {{OH(w, e, s, t) : e \in SeqsUpTo(EdgesOver(n, A, EL), E), s \in TypedSeqs(w, ta), t \in TypedSeqs(w, tb)}
+                : w \in SeqsOfLen(NL, n)} : n \in 0 .. N}
 \* hypergraphs without interfaces
 HypergraphsN(n, E, A, NL, EL) == {OH(w, e, <<>>, <<>>) : w \in SeqsOfLen(NL, n), e \in SeqsUpTo(EdgesOver(n, A, EL), E)}
 Hypergraphs(N, E, A, NL, EL) == UNION {HypergraphsN(n, E, A, NL, EL) : n \in 0 .. N}
